@@ -62,3 +62,43 @@ Theorem C05_traverse_check_string : forall v, wfb v = true -> top_ok v -> forall
   traverse_check_string_m (enc v) needle = Ok (traverse_check_string_t (normalise v) needle).
 Proof. exact traverse_on_enc. Qed.
 Print Assumptions C05_traverse_check_string.
+
+(* ---- the byte walkers themselves (Walk.v: the offset arithmetic of get_jentry_by_index / get_jentry_by_name /
+   extract_by_jentry and of the loops of object_keys, object_each, array_values, get_by_keypath, with a slice
+   out of bounds modelled as a panic): on the encoding of any well-formed v every offset lands where it should,
+   and the answer is the tree answer on v itself. *)
+From JB Require Import Walk WalkProofs.
+
+Theorem C05_bytes_array_length : forall v, wfb v = true -> top_ok v -> array_length_w (enc v) = Ok (array_length_t v).
+Proof. exact array_length_w_enc. Qed.
+Print Assumptions C05_bytes_array_length.
+
+Theorem C05_bytes_get_by_index : forall v i, wfb v = true -> top_ok v ->
+  get_by_index_w (enc v) i = Ok (option_map enc (get_by_index_t v i)).
+Proof. exact get_by_index_w_enc. Qed.
+Print Assumptions C05_bytes_get_by_index.
+
+Theorem C05_bytes_get_by_name : forall v name ic, wfb v = true -> top_ok v ->
+  get_by_name_w (enc v) name ic = Ok (option_map enc (get_by_name_t v name ic)).
+Proof. exact get_by_name_w_enc. Qed.
+Print Assumptions C05_bytes_get_by_name.
+
+Theorem C05_bytes_get_by_keypath : forall v ks, wfb v = true -> top_ok v ->
+  get_by_keypath_w (enc v) ks = Ok (option_map enc (get_by_keypath_t v ks)).
+Proof. exact get_by_keypath_w_enc. Qed.
+Print Assumptions C05_bytes_get_by_keypath.
+
+Theorem C05_bytes_object_keys : forall v, wfb v = true -> top_ok v ->
+  object_keys_w (enc v) = Ok (option_map enc (object_keys_t v)).
+Proof. exact object_keys_w_enc. Qed.
+Print Assumptions C05_bytes_object_keys.
+
+Theorem C05_bytes_object_each : forall v, wfb v = true -> top_ok v ->
+  object_each_w (enc v) = Ok (option_map (map (fun kv => (fst kv, enc (snd kv)))) (object_each_t v)).
+Proof. exact object_each_w_enc. Qed.
+Print Assumptions C05_bytes_object_each.
+
+Theorem C05_bytes_array_values : forall v, wfb v = true -> top_ok v ->
+  array_values_w (enc v) = Ok (option_map (map enc) (array_values_t v)).
+Proof. exact array_values_w_enc. Qed.
+Print Assumptions C05_bytes_array_values.
